@@ -1,4 +1,159 @@
+/-
+  C03 — Emitted documents conform to the published wire format.
+  Property theorems about the serialiser model `Serial.toSerial` (mirrors `Hugr._to_serial`,
+  base.py) for every store reachable through the public mutators (`Props.C04.Reach`).
+
+  Conformance of the emitted documents to the published strict JSON schema is decided per document
+  by executing the JSON-Schema semantics `Schema.eval` (whose schema terms are regenerated from
+  specification/schema on every run, C17) on what the implementation emits; it is not a theorem here.
+-/
+import HugrVerif.Proofs.Serial
 import HugrVerif.SerialCodecs
+import HugrVerif.Props.C04
+
 namespace HugrVerif.Props.C03
-theorem placeholder : True := trivial
+open HugrVerif HugrVerif.Store HugrVerif.Serial HugrVerif.Py
+
+variable {Ω : Type}
+
+/-- **Index sanity, nodes**: in the document of any reachable HUGR, node 0 is the root and is
+    written as its own parent, and the parent written for every other node is a node listed earlier
+    — also after node deletion and index reuse.  (`order` is the hierarchy walk from the root; that
+    it reaches every live node is tied by the correspondence.) -/
+theorem index_sane_nodes (rootOp : Ω) (m : Meta) (s : St Ω) (hr : C04.Reach rootOp m s)
+    (order : List Nat) (hl : hierLoop s (s.nodes.length + 1) [s.root] [] [] = .ok order) :
+    order[0]? = some s.root ∧
+    (∀ p, parentIndex s order s.root = .ok p → p = 0) ∧
+    (∀ k i p, 0 < k → order[k]? = some i → parentIndex s order i = .ok p → p < k) := by
+  obtain ⟨_, hh, hroot⟩ := C04.reach_inv rootOp m s hr
+  obtain ⟨h0, hk⟩ := parents_listed_earlier s hh hroot.noParent hroot.only order hl
+  exact ⟨(h0 0).1, fun p => (h0 p).2, hk⟩
+
+/-- The parent index analysed above is exactly the one handed to the operation encoder. -/
+theorem node_parent_field (c : OpCodec Ω) (s : St Ω) (order : List Nat) (i : Nat) (r : Json × Option Meta)
+    (h : serialNode c s order i = .ok r) :
+    ∃ d p, getNode s i = .ok d ∧ parentIndex s order i = .ok p ∧ c.enc d.op p = .ok r.1 :=
+  serialNode_parent c s order i r h
+
+/-- … and the encoders write it into the `parent` field. -/
+theorem labelCodec_parent (l : String) (p : Nat) (j : Json) (h : labelCodec.enc l p = .ok j) :
+    ∃ kvs, j = .obj kvs ∧ fld "parent" kvs = some (.int p) := by
+  simp only [labelCodec] at h
+  split at h
+  · injection h with h; subst h; exact ⟨_, rfl, by simp [fld]⟩
+  · split at h
+    · injection h with h; subst h; exact ⟨_, rfl, by simp [fld]⟩
+    · injection h with h; subst h; exact ⟨_, rfl, by simp [fld]⟩
+
+/-- **Index sanity, edges**: both endpoints of every serialised edge name an existing node. -/
+theorem index_sane_edges (c : OpCodec Ω) (s : St Ω) (order : List Nat) (e : SubPort × SubPort) (ed : Edge)
+    (h : serialLink c s order e = .ok ed) : ed.src < order.length ∧ ed.dst < order.length :=
+  serialLink_in_range c s order e ed h
+
+theorem doc_shape (c : OpCodec Ω) (s : St Ω) (d : Doc) (order : List Nat)
+    (ho : hierarchyOrder s = .ok order) (h : toSerial c s = .ok d) :
+    d.nodes.length = order.length ∧ d.edges.length = s.links.fwd.length := by
+  unfold toSerial at h
+  simp only [ho, liftS] at h
+  cases hn : order.mapM (serialNode c s order) with
+  | error e => simp [hn] at h
+  | ok ns =>
+    simp only [hn] at h
+    cases he : s.links.fwd.mapM (serialLink c s order) with
+    | error e => simp [he] at h
+    | ok es =>
+      simp only [he] at h
+      injection h with h; subst h
+      have l1 : ns.length = order.length := by
+        have : ∀ (l : List Nat) (r : List (Json × Option Meta)), l.mapM (serialNode c s order) = .ok r → r.length = l.length := by
+          intro l
+          induction l with
+          | nil => intro r hr; simp [List.mapM_nil, pure, Except.pure] at hr; subst hr; rfl
+          | cons a t ih =>
+            intro r hr
+            simp only [List.mapM_cons, bind, Except.bind] at hr
+            cases h1 : serialNode c s order a with
+            | error e => simp [h1] at hr
+            | ok x =>
+              simp only [h1] at hr
+              cases h2 : t.mapM (serialNode c s order) with
+              | error e => simp [h2] at hr
+              | ok xs => simp [h2, pure, Except.pure] at hr; subst hr; simp [ih xs h2]
+        exact this order ns hn
+      have l2 : es.length = s.links.fwd.length := by
+        have : ∀ (l : List (SubPort × SubPort)) (r : List Edge), l.mapM (serialLink c s order) = .ok r → r.length = l.length := by
+          intro l
+          induction l with
+          | nil => intro r hr; simp [List.mapM_nil, pure, Except.pure] at hr; subst hr; rfl
+          | cons a t ih =>
+            intro r hr
+            simp only [List.mapM_cons, bind, Except.bind] at hr
+            cases h1 : serialLink c s order a with
+            | error e => simp [h1] at hr
+            | ok x =>
+              simp only [h1] at hr
+              cases h2 : t.mapM (serialLink c s order) with
+              | error e => simp [h2] at hr
+              | ok xs => simp [h2, pure, Except.pure] at hr; subst hr; simp [ih xs h2]
+        exact this _ es he
+      simp [l1, l2]
+
+/-- **A state order edge is addressed at the first port after the value ports and the static input
+    port of the operation, independently of how many of the node's ports are connected** (the
+    connected-port counters `numInps`/`numOuts` do not occur in the result). -/
+theorem order_port_after_static (fuel : Nat) (s : St Op) (node : Nat) (d : NodeData Op Meta)
+    (hd : getNode s node = .ok d) (sig : Sig) (hdf : Op.isDataflowOp d.op = true)
+    (hsig : Op.outerSig d.op = .ok sig) (hcall : ∀ a b c, d.op ≠ .call a b c) :
+    constrainOffset (opsCodec fuel) s node (-1) true =
+      .ok ((sig.inp.length + (match d.op with | .loadConst _ | .loadFunc .. => 1 | _ => 0) : Nat) : Int) ∧
+    constrainOffset (opsCodec fuel) s node (-1) false = .ok (sig.out.length : Int) := by
+  have hoff : ∀ inc, (opsCodec fuel).orderOff d.op inc =
+      .ok (some (if inc then sig.inp.length + (match d.op with | .loadConst _ | .loadFunc .. => 1 | _ => 0)
+                 else sig.out.length)) := by
+    intro inc
+    simp only [opsCodec, opOrderOff]
+    cases hop : d.op <;> simp_all
+  constructor
+  · have := constrainOffset_order (opsCodec fuel) s node true d _ hd (hoff true)
+    simpa using this
+  · have := constrainOffset_order (opsCodec fuel) s node false d _ hd (hoff false)
+    simpa using this
+
+/-- `Call`: the order port comes after the value inputs of the INSTANTIATED signature and the
+    function port (which sits immediately after the value inputs). -/
+theorem call_order_port (fuel : Nat) (s : St Op) (node : Nat) (d : NodeData Op Meta) (p : Poly) (inst : Sig)
+    (args : List TypeArg) (hd : getNode s node = .ok d) (hop : d.op = .call p inst args) :
+    constrainOffset (opsCodec fuel) s node (-1) true = .ok ((inst.inp.length + 1 : Nat) : Int) ∧
+    constrainOffset (opsCodec fuel) s node (-1) false = .ok (inst.out.length : Int) ∧
+    Op.functionPortOffset d.op = .ok inst.inp.length := by
+  have hoff : ∀ inc, (opsCodec fuel).orderOff d.op inc =
+      .ok (some (if inc then inst.inp.length + 1 else inst.out.length)) := by
+    intro inc; simp [opsCodec, opOrderOff, hop]
+  refine ⟨?_, ?_, ?_⟩
+  · have := constrainOffset_order (opsCodec fuel) s node true d _ hd (hoff true); simpa using this
+  · have := constrainOffset_order (opsCodec fuel) s node false d _ hd (hoff false); simpa using this
+  · simp [hop, Op.functionPortOffset]
+
+/-- **Value and static ports are addressed by their own position** (the in-memory offset is
+    written unchanged). -/
+theorem value_ports_by_position (c : OpCodec Ω) (s : St Ω) (node : Nat) (incoming : Bool) (off : Int)
+    (h : 0 ≤ off) : constrainOffset c s node off incoming = .ok off :=
+  constrainOffset_value c s node incoming off h
+
+/-- Non-vacuity: after deletion and index reuse (child index smaller than its parent's) the document
+    of the store model lists the parent first. -/
+def demoParents : Except Serial.Err (List (Option Int)) := do
+  let s0 := Store.init "module" ([] : Meta)
+  let (s, _) ← liftS (Store.addNode s0 "a" none none [])
+  let (s, _) ← liftS (Store.addNode s "b" none none [])
+  let s ← liftS (Store.deleteNode s 1)
+  let (s, _) ← liftS (Store.addNode s "c" (some 2) none [])    -- reuses index 1 under node 2
+  let d : Doc ← toSerial labelCodec s
+  pure (d.nodes.map fun j => match j with
+    | HugrVerif.Json.obj kvs => (match fld "parent" kvs with | some (HugrVerif.Json.int p) => some p | _ => none)
+    | _ => none)
+
+example : (match demoParents with | .ok ps => ps == [some 0, some 0, some 1] | .error _ => false) = true := by
+  decide
+
 end HugrVerif.Props.C03
